@@ -1,5 +1,5 @@
 import HeartwoodModel.Model.Streams
-/-! Invariant of the stream table under the repaired `Open` handler (C13d). -/
+/-! Invariant of the stream table under the `Open` handler of 614904d (C13d). -/
 namespace HeartwoodModel.Streams
 
 /-- Every registered id that carries our initiator bit was allocated by us: it is `git(link).nth(k)` for
@@ -14,10 +14,10 @@ theorem init_inv (l : Link) : Inv (init l) := by
   intro id h; simp [init] at h
 
 theorem step_fixed {σ : State} (h : Inv σ) (hb : gitId σ.link (σ.seq + 1) < ID_BOUND) (op : Op) :
-    ∃ σ' evs, step Code.fixed σ op = .ok (σ', evs) ∧ Inv σ' ∧ σ'.link = σ.link ∧ σ'.seq ≤ σ.seq + 1 := by
+    ∃ σ' evs, step Code.current σ op = .ok (σ', evs) ∧ Inv σ' ∧ σ'.link = σ.link ∧ σ'.seq ≤ σ.seq + 1 := by
   cases op with
   | recvOpen id =>
-    simp only [step, Code.fixed, Bool.true_and]
+    simp only [step, Code.current, Bool.true_and]
     by_cases hc : (decide (id % 2 = σ.link.bit) || decide (idKind id ≠ 2)) = true
     · rw [if_pos hc]; exact ⟨σ, [], rfl, h, rfl, by omega⟩
     · rw [if_neg hc]
@@ -63,7 +63,7 @@ theorem step_fixed {σ : State} (h : Inv σ) (hb : gitId σ.link (σ.seq + 1) < 
     · rw [if_neg hm]; exact ⟨σ, [], rfl, h, rfl, by omega⟩
 
 theorem run_fixed : ∀ (ops : List Op) (σ : State), Inv σ → gitId σ.link (σ.seq + ops.length) < ID_BOUND →
-    ∀ r, r ∈ run Code.fixed σ ops → ∀ s, r ≠ .error s := by
+    ∀ r, r ∈ run Code.current σ ops → ∀ s, r ≠ .error s := by
   intro ops
   induction ops with
   | nil => intro σ _ _ r hr; simp [run] at hr
